@@ -450,10 +450,19 @@ impl FormatSpec {
             Some(FormatType::Exponent(_) | FormatType::FixedPoint(_) | FormatType::Percentage) => {
                 self.format_float(x as f64)
             }
-            None => {
-                let first_letter = (input.to_string().as_bytes()[0] as char).to_uppercase();
-                Ok(first_letter.collect::<String>() + &input.to_string()[1..])
+            None if self.fill.is_none()
+                && self.align.is_none()
+                && self.sign.is_none()
+                && !self.alternate_form
+                && self.width.is_none()
+                && self.grouping_option.is_none()
+                && self.precision.is_none() =>
+            {
+                // the empty spec is str(bool)
+                Ok(if input { "True" } else { "False" }.to_owned())
             }
+            // any other spec formats the bool as the integer 0 / 1
+            None => self.format_int(&BigInt::from_u8(x).unwrap()),
             _ => Err(FormatSpecError::InvalidFormatSpecifier),
         }
     }
